@@ -151,12 +151,6 @@ func main() {
 		}
 	}
 
-	dir, err := os.MkdirTemp("", "rpcscen-")
-	if err != nil {
-		fail("temp dir: %v", err)
-	}
-	defer os.RemoveAll(dir)
-
 	master := hx.NewRand(hx.NewRand(seed).U64() ^ masterSalt)
 	maxRuns := 60
 	if s.thorough {
@@ -179,6 +173,5 @@ func main() {
 		}
 	}
 	fmt.Printf("c04 summary runs=%d viol=%d\n", s.runs, s.viols)
-	os.RemoveAll(dir)
 	os.Exit(0)
 }
